@@ -81,8 +81,7 @@ def impl_matches(val, sv):
         return isinstance(val, int) and not isinstance(val, bool) and val == sv[1]
     if isinstance(val, bool) or not isinstance(val, (int, float)):
         return False
-    n, ok = pyb.to_scaled_int(val, sv[2])
-    return ok and n == sv[1]
+    return pyb.matches_scaled_int(val, sv[1], sv[2])
 
 
 def user_value(e, j):
@@ -265,3 +264,71 @@ def compare_parsed(beh, parsed, what='encode'):
     if parsed['nbits_used'] is not None and parsed.get('padding_nonzero'):
         return ((what, 'padding', 'nonzero', ''), 'padding bits after the data are not zero')
     return None
+
+
+# ---------------------------------------------------------------------------------------------
+# batches: what TLC chooses per template group
+
+def batch_plan(tier, seed):
+    """List of (label, group, kwargs for gen_run).  The per-group constants keep the number of
+    behaviours per template bounded (DESIGN 7, behaviour budget)."""
+    rot = seed % 5
+    plan = []
+    if tier == 'quick':
+        plan.append(('v33 plain', 'plain', dict(mversion=33, subset_counts=(1, 2), seeds=(rot, (rot + 2) % 5), slack=1)))
+        plan.append(('v33 struct', 'struct', dict(mversion=33, subset_counts=(1, 2), seeds=(rot,), fmax=2, slack=0)))
+        plan.append(('v33 bitmap', 'bitmap', dict(mversion=33, subset_counts=(1, 2), seeds=((rot + 1) % 5,), fmax=2, slack=0)))
+        plan.append(('v35 plain ed3', 'plain', dict(mversion=35, editions=(3,), subset_counts=(2,), seeds=((rot + 3) % 5,), slack=0)))
+        plan.append(('v13 struct ed2', 'struct', dict(mversion=13, editions=(2,), subset_counts=(1,), seeds=((rot + 4) % 5,), fmax=1, slack=0)))
+    else:
+        for mv in (33, 35, 13, 19, 41):
+            eds = {33: (4,), 35: (3,), 13: (2,), 19: (4,), 41: (3,)}[mv]
+            plan.append(('v%d plain' % mv, 'plain', dict(mversion=mv, editions=eds, subset_counts=(1, 2, 3), seeds=(0, 1, 2, 3, 4), slack=1)))
+            plan.append(('v%d struct' % mv, 'struct', dict(mversion=mv, editions=eds, subset_counts=(1, 2), seeds=(rot, (rot + 2) % 5), fmax=3 if mv == 33 else 2, slack=1)))
+            plan.append(('v%d bitmap' % mv, 'bitmap', dict(mversion=mv, editions=eds, subset_counts=(1, 2), seeds=(rot, (rot + 3) % 5), fmax=2, slack=1)))
+    return plan
+
+
+def _init_worker():
+    from .common import ensure_repo_import
+    ensure_repo_import()
+
+
+def _work(args):
+    mode, behs = args
+    out = []
+    for beh in behs:
+        r = {'bad_dec': None, 'bad_enc': None, 'enc_bytes': None}
+        if 'decode' in mode:
+            r['bad_dec'], _ = replay_decode(beh)
+        if 'encode' in mode:
+            bad, msg = replay_encode(beh, canonical=not beh['cmp'])
+            r['bad_enc'] = bad
+            if bad is None and beh['cmp']:
+                r['enc_bytes'] = bytes(msg.serialized_bytes)
+        out.append(r)
+    return out
+
+
+def replay_all(behaviours, mode, procs=14, chunk=40):
+    """Replay behaviours (list) in a process pool; returns list of result dicts in order."""
+    import multiprocessing as mp
+    chunks = [behaviours[i:i + chunk] for i in range(0, len(behaviours), chunk)]
+    if not chunks:
+        return []
+    ctx = mp.get_context('fork')
+    with ctx.Pool(min(procs, len(chunks)), initializer=_init_worker) as pool:
+        res = pool.map(_work, [(mode, c) for c in chunks])
+    return [r for c in res for r in c]
+
+
+def brief(beh):
+    return {'ids': beh['ids'], 'ed': beh['ed'], 'cmp': beh['cmp'], 'nsub': beh['nsub'], 'seed': beh['seed'],
+            'mversion': beh.get('mversion'), 'nbits': beh['nbits'],
+            'labels_subset0': [e['lab'] for e in beh['subsets'][0]][:40]}
+
+
+def structure_key(beh):
+    """Identifies the structure (not the values) of a behaviour - used to count distinct cases."""
+    return (tuple(beh['ids']), beh['ed'], beh['cmp'], beh['nsub'], beh.get('mversion'),
+            tuple(tuple(e['lab'] for e in s) for s in beh['subsets']))
